@@ -582,6 +582,13 @@ Proof.
   cbn [mark_all fold_left]. destruct (register_watch (mark t k) k) as [b t']. reflexivity.
 Qed.
 
+(** every command whose handler speaks about the connection is run by EXEC with the id of the
+    connection that sent it (b11ef93 added CLIENT); the blocking pops are the exception by design:
+    inside EXEC they never block and use no connection *)
+Lemma exec_conn_level_arms_ok :
+  forallb (fun n => bmem n exec_arms_with_conn_id || bmem n [bs "BLPOP"; bs "BRPOP"]) pnc_arms_using_conn_id = true.
+Proof. vm_compute. reflexivity. Qed.
+
 (** ---- table-driven obligations over the generated census of engine.rs ---- *)
 (** the tracker's fields are written where the model writes them and nowhere else: the per-key
     counters and the shard counter by mark_key_modified only (so ending a watch cannot lower or
